@@ -466,4 +466,239 @@ theorem listEqBy_iff (ne : Val → Val → Bool) (xs ys : List Val) :
         refine ⟨by simpa using hi 0 (by omega), by omega, fun i hi' => ?_⟩
         simpa using hi (i + 1) (by omega)
 
+/-! ### a failed copy assignment / constructor (round 3b) -/
+
+/-- the operations that REBUILD the vector in register `d` with one allocation: copy assignment from another
+    vector, copy construction, `vector(n)`, the initializer-list / template-range constructor -/
+def Op.rebuilds : Op → Option Nat
+  | .copyAssign d src => if d = src then none else some d
+  | .copyCtor d src => if d = src then none else some d
+  | .sizeCtor d _ => some d
+  | .listCtor d _ => some d
+  | _ => none
+
+theorem invalidate_empty (l : Ledger) : invalidate Vec.empty l = some (Vec.empty, l) := by
+  simp [invalidate, Vec.empty]
+
+theorem invalidate_fst {v v0 : Vec} {l l0 : Ledger} (h : invalidate v l = some (v0, l0)) : v0 = Vec.empty := by
+  unfold invalidate at h
+  split at h
+  · simp at h; exact h.1.symm
+  · split at h
+    · simp at h
+    · split at h
+      · simp at h; exact h.1.symm
+      · simp at h
+
+/-- a rebuilding operation with an allocation failure armed: either the call is the unarmed one, or it is left by
+    std::bad_alloc in exactly the state `invalidate()` of the target register produces (what `invalidate()` /
+    the delegated-to constructor + destructor leave: the empty vector, the old elements destroyed, the old block
+    given back) -/
+theorem stepA_rebuild (portable : Bool) (s : St) (af : AF) (op : Op) {d : Nat} (hop : op.rebuilds = some d)
+    {v0 : Vec} {l0 : Ledger} (hinv : invalidate (s.regs d) s.led = some (v0, l0)) :
+    stepA false portable s af op = .ofOption (step portable s op) ∨
+    (stepA false portable s af op = .threw (s.set d Vec.empty l0, .throw) ∧
+      step portable s (.invalidate d) = some (s.set d Vec.empty l0, .unit)) := by
+  have hv0 := invalidate_fst hinv
+  subst hv0
+  have hstepI : step portable s (.invalidate d) = some (s.set d Vec.empty l0, .unit) := by
+    simp [step, hinv]
+  cases op with
+  | copyAssign d' src =>
+    simp only [Op.rebuilds] at hop
+    split at hop
+    · simp at hop
+    · rename_i hne
+      simp only [Option.some.injEq] at hop; subst hop
+      simp only [stepA, step, hne, if_false, copyAssignA, hinv]
+      by_cases hh : af.hit 0 (s.regs src).size = true
+      · right; simp [hh, hstepI]
+      · left
+        simp only [hh]
+        cases hc : copyAssign (s.regs d') (s.regs src) s.led <;> simp [Out.ofOption]
+  | copyCtor d' src =>
+    simp only [Op.rebuilds] at hop
+    split at hop
+    · simp at hop
+    · rename_i hne
+      simp only [Option.some.injEq] at hop; subst hop
+      simp only [stepA, step, hne, if_false, hinv, copyCtorA]
+      by_cases hp : (portable && (s.regs src).size == 0) = true
+      · left
+        simp [hp, copyCtor, Out.ofOption]
+      · by_cases hh : af.hit 0 (s.regs src).size = true
+        · right; simp [hp, hh, unwindCtor, invalidate_empty, hstepI]
+        · left
+          simp only [hp, hh]
+          cases hc : copyCtor portable (s.regs src) l0 <;> simp [Out.ofOption]
+  | sizeCtor d' n =>
+    simp only [Op.rebuilds, Option.some.injEq] at hop; subst hop
+    simp only [stepA, step, hinv, sizeCtorA, resizeA_eq, sizeCtor]
+    by_cases hh : n > Vec.empty.cap ∧ af.hit 0 n = true
+    · right; simp [hh, unwindCtor, invalidate_empty, hstepI]
+    · left
+      simp only [hh, if_false]
+      cases hc : resize Vec.empty n l0 <;> simp [Out.ofOption]
+  | listCtor d' xs =>
+    simp only [Op.rebuilds, Option.some.injEq] at hop; subst hop
+    simp only [stepA, step, hinv, listCtorA, reserveA_eq]
+    by_cases hh : xs.length > Vec.empty.cap ∧ af.hit 0 xs.length = true
+    · right; simp [hh, unwindCtor, invalidate_empty, hstepI]
+    · left
+      simp only [hh, if_false]
+      cases hr : reserve Vec.empty xs.length l0 with
+      | none => simp [Out.ofOption, listCtor, hr]
+      | some r => cases hc : listCtor xs l0 <;> simp [Out.ofOption]
+  | _ => simp [Op.rebuilds] at hop
+
+/-! `vector(iterator first, const iterator last)`: one push_back per element, each may allocate (no reserve) -/
+
+theorem emplaceBackA_val_cases (af : AF) (idx : Nat) (v : Vec) (x : Val) (l : Ledger) :
+    emplaceBackA false af idx v (.val x) l = .ofOption (emplaceBack v (.val x) l) ∨
+    emplaceBackA false af idx v (.val x) l = .threw (v, (l.addCtor 1).addDtor 1) := by
+  unfold emplaceBackA
+  by_cases h : v.size + 1 > v.cap
+  · simp only [h, if_true, argVal, changeBufferA_eq]
+    by_cases hh : af.hit idx (v.size + 1) = true
+    · right; simp [hh]
+    · left
+      simp only [hh]
+      cases hc : changeBuffer v (v.size + 1) (l.addCtor 1) <;> simp [Out.ofOption, emplaceBack, h, argVal, hc]
+  · left; simp [h]
+
+/-- the push_back loop with any allocation failing: it completes like the unarmed loop, or stops at the failing
+    push_back with a vector that represents the elements pushed so far (ledger in step) -/
+theorem pushAllA_good (af : AF) {v : Vec} {xs : List Val} (h : Rep v xs) (ys : List Val) (idx : Nat) (l : Ledger) :
+    (∃ v' l', pushAllA false af idx v ys l = .ok (v', l') ∧ pushAll v ys l = some (v', l')) ∨
+    (∃ v' zs l', pushAllA false af idx v ys l = .threw (v', l') ∧ Good v xs l v' zs l') := by
+  induction ys generalizing v xs l idx with
+  | nil => exact Or.inl ⟨v, l, rfl, rfl⟩
+  | cons y ys ih =>
+    obtain ⟨v1, l1, h1, g1⟩ := emplaceBack_good h (a := .val y) (x := y) rfl l
+    rcases emplaceBackA_val_cases af idx v y l with hc | hc
+    · rw [h1] at hc
+      rcases ih g1.rep (if v.size + 1 > v.cap then idx + 1 else idx) l1 with ⟨v2, l2, h2, h3⟩ | ⟨v2, zs, l2, h2, g2⟩
+      · exact Or.inl ⟨v2, l2, by simp only [pushAllA, hc, Out.ofOption]; exact h2, by simp [pushAll, h1, h3]⟩
+      · exact Or.inr ⟨v2, zs, l2, by simp only [pushAllA, hc, Out.ofOption]; exact h2, g1.trans g2⟩
+    · refine Or.inr ⟨v, xs, (l.addCtor 1).addDtor 1, by simp only [pushAllA, hc], h, ?_, ?_⟩
+      · rw [net_ctor_dtor]; omega
+      · rw [blocks_ctor_dtor]; omega
+
+/-! ### `operator<` under an arbitrary element order (round 3b) -/
+
+theorem listLtBy_drop (lt : Val → Val → Bool) (xs ys : List Val) (i : Nat) (hx : i < xs.length) (hy : i < ys.length) :
+    listLtBy lt (xs.drop i) (ys.drop i) =
+      (if lt (xs.getD i 0) (ys.getD i 0) then true else if lt (ys.getD i 0) (xs.getD i 0) then false
+       else listLtBy lt (xs.drop (i + 1)) (ys.drop (i + 1))) := by
+  rw [List.drop_eq_getElem_cons hx, List.drop_eq_getElem_cons hy]
+  simp [listLtBy, List.getD_eq_getElem?_getD, List.getElem?_eq_getElem hx, List.getElem?_eq_getElem hy]
+
+theorem listLtBy_nil_left (lt : Val → Val → Bool) (ys : List Val) : listLtBy lt [] ys = decide (ys ≠ []) := by
+  cases ys <;> simp [listLtBy]
+
+theorem listLtBy_nil_right (lt : Val → Val → Bool) (xs : List Val) : listLtBy lt xs [] = false := by
+  cases xs <;> simp [listLtBy]
+
+/-- the `std::lexicographical_compare` loop over two represented vectors: no fault, the list function -/
+theorem lexLoopBy_ok (lt : Val → Val → Bool) {a b : Vec} {xs ys : List Val} (ha : Rep a xs) (hb : Rep b ys)
+    (i n : Nat) (hin : i + n = min xs.length ys.length) :
+    lexLoopBy lt a b i n = some (listLtBy lt (xs.drop i) (ys.drop i)) := by
+  induction n generalizing i with
+  | zero =>
+    unfold lexLoopBy
+    rw [ha.1, hb.1]
+    by_cases hx : i = xs.length
+    · have h1 : xs.drop i = [] := List.drop_eq_nil_of_le (by omega)
+      rw [h1, listLtBy_nil_left]
+      congr 1
+      rw [decide_eq_decide]
+      simp only [ne_eq, List.drop_eq_nil_iff]
+      omega
+    · have hy : i = ys.length := by omega
+      have h2 : ys.drop i = [] := List.drop_eq_nil_of_le (by omega)
+      rw [h2, listLtBy_nil_right]
+      simp [hx]
+  | succ n ih =>
+    have hx : i < xs.length := by omega
+    have hy : i < ys.length := by omega
+    unfold lexLoopBy
+    cases hda : a.data with
+    | none =>
+      have := ha.2; rw [hda] at this; have := this.2; simp [this] at hx
+    | some x =>
+      cases hdb : b.data with
+      | none =>
+        have := hb.2; rw [hdb] at this; have := this.2; simp [this] at hy
+      | some y =>
+        simp only [rd_rep ha hda hx, rd_rep hb hdb hy]
+        rw [listLtBy_drop lt xs ys i hx hy, ih (i + 1) (by omega)]
+        cases lt (xs.getD i 0) (ys.getD i 0) <;> cases lt (ys.getD i 0) (xs.getD i 0) <;> simp
+
+theorem vecLtBy_ok (lt : Val → Val → Bool) {a b : Vec} {xs ys : List Val} (ha : Rep a xs) (hb : Rep b ys) :
+    vecLtBy lt a b = some (listLtBy lt xs ys) := by
+  unfold vecLtBy
+  have := lexLoopBy_ok lt ha hb 0 (min xs.length ys.length) (by omega)
+  simpa [ha.1, hb.1] using this
+
+/-- what `std::lexicographical_compare` MEANS, without recursion: there is a position `k` inside `ys`, at most the
+    length of `xs`, in front of which the two lists are elementwise equivalent (neither element less than the
+    other), and at which `xs` ends or holds the smaller element. -/
+theorem listLtBy_iff (lt : Val → Val → Bool) (xs ys : List Val) :
+    listLtBy lt xs ys = true ↔
+      ∃ k, k ≤ xs.length ∧ k < ys.length ∧
+        (∀ i, i < k → lt (xs.getD i 0) (ys.getD i 0) = false ∧ lt (ys.getD i 0) (xs.getD i 0) = false) ∧
+        (k = xs.length ∨ lt (xs.getD k 0) (ys.getD k 0) = true) := by
+  induction xs generalizing ys with
+  | nil =>
+    cases ys with
+    | nil => simp [listLtBy]
+    | cons y ys =>
+      simp only [listLtBy, true_iff]
+      exact ⟨0, by simp, by simp, fun i hi => by omega, Or.inl rfl⟩
+  | cons x xs ih =>
+    cases ys with
+    | nil => simp [listLtBy]
+    | cons y ys =>
+      simp only [listLtBy]
+      cases hxy : lt x y with
+      | true =>
+        simp only [if_true, true_iff]
+        exact ⟨0, by simp, by simp, fun i hi => by omega, Or.inr (by simpa using hxy)⟩
+      | false =>
+        cases hyx : lt y x with
+        | true =>
+          simp only [Bool.false_eq_true, if_false, if_true, false_iff]
+          rintro ⟨k, hk1, hk2, hpre, hat⟩
+          cases k with
+          | zero =>
+            rcases hat with h | h
+            · simp at h
+            · simp [hxy] at h
+          | succ k =>
+            have := (hpre 0 (by omega)).2
+            simp [hyx] at this
+        | false =>
+          simp only [Bool.false_eq_true, if_false, ih ys]
+          constructor
+          · rintro ⟨k, hk1, hk2, hpre, hat⟩
+            refine ⟨k + 1, by simp; omega, by simp; omega, fun i hi => ?_, ?_⟩
+            · cases i with
+              | zero => simp [hxy, hyx]
+              | succ j => simpa using hpre j (by omega)
+            · rcases hat with h | h
+              · exact Or.inl (by simp [h])
+              · exact Or.inr (by simpa using h)
+          · rintro ⟨k, hk1, hk2, hpre, hat⟩
+            cases k with
+            | zero =>
+              rcases hat with h | h
+              · simp at h
+              · simp [hxy] at h
+            | succ k =>
+              refine ⟨k, by simp at hk1; omega, by simp at hk2; omega, fun i hi => ?_, ?_⟩
+              · simpa using hpre (i + 1) (by omega)
+              · rcases hat with h | h
+                · exact Or.inl (by simp at h; omega)
+                · exact Or.inr (by simpa using h)
+
 end Igris.C02
